@@ -25,8 +25,8 @@ func (c20) CrashIsViolation() bool { return false }
 func (c20) CaseTimeout(string) int { return 120 }
 
 const (
-	quickCases    = 1500
-	thoroughCases = 24000
+	quickCases    = 3000
+	thoroughCases = 45000
 	reformsPerOp  = 4
 )
 
@@ -38,32 +38,35 @@ func (c20) NumCases(tier string) int {
 }
 
 func (c20) Rule() string {
-	return "one case = one base operation q generated from grpctest/testdata/products.graphqls (independent gqlparser model) + 4 reformulations q'. " +
-		"q: 4 of 5 cases a query/mutation over 1-3 root fields (first root field enumerated by the case index, every 6th a mutation), 1 of 5 an entity lookup " +
-		"query($representations){_entities{... on Product|Storage|Warehouse{__typename …}}} with @requires fields, their representations generated from the @requires selection sets, and the matching federation configuration. " +
-		"Selections are random over objects, lists, nested lists, nullable wrappers, enums, interfaces/unions with inline fragments and __typename, field resolvers (with and without arguments, nested), arguments as literals or variables built from the input types. " +
-		"q' = clone of q through the pipeline alias -> subset -> duplicate (same key, or a second alias) -> reorder -> fragments (inline on same type / no condition / named fragment / distribute an interface field over its concrete types); masks per case: alias+reorder, duplicate+fragments, subset+random, random. " +
-		"Every q and q' is checked by gqlparser (generator guard), then reaches the datasource (D) through the planner's own normalisation (extract variables, inline spreads) + validation + print + parse + NewDataSource + Load, and for every third non-entity case also (E) through ExecutionEngine with the gRPC factory, Load bytes captured by LoaderHooks. " +
-		"Oracles on the bytes returned by Load: A shape (exact response keys per run-time type, list-ness, scalar kinds, enum values, __typename, nulls in non-null positions only when the recorded service answer has data there), " +
-		"B metamorphic (every field position = path of base field ids + list indices common to q and q' has the same value; q' succeeds iff q succeeds, a subset of a succeeding q succeeds), C scalar leaves and list lengths equal the recorded protobuf answer of the root RPC where the harness can follow it by the configured field-name mapping. " +
+	return "one case = one base operation q generated from grpctest/testdata/products.graphqls (schema model built with gqlparser, independent of the repository's AST) + 4 reformulations q'. " +
+		"q: 4 of 5 cases a query/mutation over 1-3 root fields (the first root field is enumerated by the case index so that every Query/Mutation field the mock implements is used; every 6th is a mutation), 1 of 5 an entity lookup " +
+		"query($representations){_entities(representations:$representations){... on Product|Storage|(rarely)Warehouse{__typename …}}} with plain, field-resolver and @requires fields, 1-4 representations of interleaved types whose required fields are generated from the @requires selection sets, and the federation configuration the planner would pass (key of each entity type + @requires of each selected field). " +
+		"Selections are random over objects, lists, nested lists, nullable list/scalar wrappers, enums, interfaces and oneof-based unions with inline fragments and __typename, field resolvers (with/without arguments, nested), arguments as literals or variables built from the input types (small non-negative integers: the mock sizes slices by some of them). " +
+		"q' = clone of q through the pipeline alias -> subset -> duplicate (same response key, or a second alias) -> reorder -> fragments (inline on the same type / without condition / named fragment / distribute an interface field over its concrete types); step masks per case: alias+reorder, duplicate+fragments, subset+random, random. " +
+		"Every q and q' must pass gqlparser validation (generator guard) and reaches the datasource (D) the way graphql_datasource.Planner.ConfigureFetch does: print-kit normalisation (extract variables, inline fragment spreads, remove fragment definitions/unused variables) + validation + print + parse + NewDataSource + Load; every third non-entity case also (E) through ExecutionEngine with NewFactoryGRPC, where the bytes returned by Load are captured with LoaderHooks and the upstream operation is read from the request trace. " +
+		"Oracles on the bytes returned by Load: A shape — exactly the response keys of the selection for the run-time type (CollectFields over the harness' own tree; D: client operation, E: the engine's upstream operation), list-ness, scalar kinds, enum values, __typename, entity i answers representation i; " +
+		"B metamorphic — every field position (path of base-field ids + list indices) common to q and q' carries the same value, a field selected twice in one operation has one value, q' succeeds iff q succeeds (a subset of a succeeding q succeeds); also D against E when both issued the same RPC requests; " +
+		"C projection — following the recorded protobuf answers by the configured field-name mapping (root RPC answers; result[n] of resolve/require RPCs for the n-th parent object), scalar leaves, list lengths, the concrete type of oneofs and presence (null <-> unset) equal the service data; wherever the walk is not certain nothing is judged. " +
 		"A case is non-trivial when q succeeded and at least one reformulation was compared on >=1 common field position; distinct by hash of (q, variables)."
 }
 
 func (c20) Assumptions() []string {
 	return []string{
-		"the mock service uses math/rand: the RPC transport is wrapped by a memoising layer keyed by (method, deterministic protobuf marshal of the request), so equal RPCs get equal answers within a case; the datasource is judged against that function",
+		"the mock service uses math/rand: the client connection under the datasource's RPCTransport is wrapped by a memoising layer keyed by (method, deterministic protobuf marshal of the request), reset per case, so equal RPCs get equal answers within a case; the datasource is judged against that function",
 		"the datasource's input domain is what the planner hands it: operations after the print-kit normalisation (named fragments inlined, literals extracted to variables); raw documents are not judged",
-		"entity operations follow the planner's form: variable named representations, an un-aliased __typename inside every entity fragment, no alias on _entities, no selection directly under _entities, federation configuration = key of each entity type + the @requires configuration of each selected field",
-		"a planner error (NewDataSource fails) is inconclusive and counted by message class, never a violation; an error answer ({\"errors\":…}) is a failed operation",
-		"a null in a non-null position is a violation only when the recorded service answer has data at that position; absent service data (the mock leaves e.g. Owner.pet unset) projected as null is counted, not judged; positions below field resolvers / @requires / _entities are not attributed",
+		"entity operations follow the planner's form: variable named representations, an un-aliased __typename inside every entity fragment, no alias on _entities, no selection directly under _entities, @requires fields only directly inside an entity fragment",
+		"a planner error (NewDataSource fails) is inconclusive and counted by message class, never a violation; an answer {\"errors\":…} is a failed operation and is judged only through 'q' succeeds iff q succeeds' (error classes and whether an RPC failed are counted)",
+		"a null is a violation only when the recorded service answer has data at that position; absent service data (the mock leaves e.g. Owner.pet unset) projected as null in a non-null position is counted, not judged",
 		"order of keys inside JSON objects is not judged; root fields of mutations are neither reordered nor duplicated under a second alias",
-		"engine path: the upstream operation is the engine's (it adds __typename on abstract types), so an extra __typename key is tolerated there; values are compared with the direct path only when both issued the same RPC requests",
+		"the mock echoes the key of a looked-up entity (id), which is what the entity alignment check compares with the representation",
 	}
 }
 
 func (c20) RequiredCounters(string) []string {
 	return []string{"operations", "operations_succeeded", "reformulations_compared", "field_positions_compared", "rpc_calls", "rpc_memo_hits",
-		"leaf_values_checked", "typename_values_checked", "leaf_values_compared_with_service_data", "engine_operations", "engine_reformulations_compared", "entity_operations_succeeded"}
+		"leaf_values_checked", "typename_values_checked", "leaf_values_compared_with_service_data", "root_fields_followed_in_service_data", "batch_results_followed_in_service_data",
+		"abstract_positions", "entity_operations_succeeded", "entity_keys_checked",
+		"engine_operations", "engine_upstream_operations_judged", "engine_reformulations_compared", "cross_path_field_positions_compared"}
 }
 
 // ---- one execution + oracle A/C -----------------------------------------------------------------
@@ -79,6 +82,7 @@ type evaluated struct {
 	pos     map[string]posRec
 	acc     *acc
 	rpcKeys map[string]bool
+	opf     map[string]string
 }
 
 func trunc(s string, n int) string {
@@ -103,7 +107,7 @@ func (e *evaluated) witness() map[string]any {
 }
 
 func evaluate(r *rig, res *fw.Result, op *operation, fed []fedConfig, steps []string, viaEngine bool) *evaluated {
-	e := &evaluated{op: op, steps: steps, acc: newAcc(), rpcKeys: map[string]bool{}}
+	e := &evaluated{op: op, steps: steps, acc: newAcc(), rpcKeys: map[string]bool{}, opf: opFacts(r.model, op)}
 	e.query, e.vars = op.print()
 	path := "direct"
 	if viaEngine {
@@ -244,6 +248,9 @@ func evaluate(r *rig, res *fw.Result, op *operation, fed []fedConfig, steps []st
 		for fk, fv := range sv.facts {
 			facts[fk] = fv
 		}
+		for fk, fv := range opFacts(r.model, op) {
+			facts[fk] = fv
+		}
 		w := e.witness()
 		w["json_path"] = sv.path
 		res.Violate(sv.kind, sv.msg, facts, w)
@@ -312,7 +319,7 @@ func walkAnswer(r *rig, res *fw.Result, e *evaluated, op *operation, data map[st
 		}
 		sub := "/" + fmt.Sprint(g.nodes[0].origin)
 		if g.name == "__typename" {
-			a.pos = append(a.pos, posRec{sub, rawJSON(val), "data." + g.key})
+			a.pos = append(a.pos, posRec{sub, rawJSON(val), "data." + g.key, where, "plain"})
 			if s, _ := val.(string); s != rootType {
 				a.viol = append(a.viol, shapeViolation{kind: "shape.typename", path: "data." + g.key, where: where, msg: "root __typename is " + rawJSON(val), facts: rootPC.facts(map[string]string{"position": where})})
 			}
@@ -426,6 +433,9 @@ func compare(res *fw.Result, base, ref *evaluated, path string, prefix string) (
 		for k, v := range extra {
 			m[k] = v
 		}
+		for k, v := range base.opf {
+			m[k] = v
+		}
 		return m
 	}
 	w := func() map[string]any {
@@ -482,7 +492,7 @@ func compare(res *fw.Result, base, ref *evaluated, path string, prefix string) (
 		wd["first_difference"] = first
 		wd["differing_positions"] = diff
 		res.Violate("metamorphic.value-differs", fmt.Sprintf("%d of %d common field positions differ between q and q' (%s): %s", diff, common, stepsKey(ref.steps), first),
-			facts(map[string]string{"base_value_kind": valueKind(firstWhere.value)}), wd)
+			facts(map[string]string{"base_value_kind": valueKind(firstWhere.value), "first_difference_at": firstWhere.where, "first_difference_below": firstWhere.below}), wd)
 	}
 	return common > 0
 }
@@ -495,6 +505,40 @@ func valueKind(v string) string {
 		return "composite"
 	}
 	return "leaf"
+}
+
+// opFacts: facts about the whole operation that known-finding matchers may test.
+func opFacts(m *schemaModel, op *operation) map[string]string {
+	out := map[string]string{}
+	if !op.entity {
+		return out
+	}
+	frags := map[string]*fragDef{}
+	for _, f := range op.frags {
+		frags[f.name] = f
+	}
+	types, withRequires := 0, 0
+	for _, root := range op.sels {
+		if !isEntityRoot(root) {
+			continue
+		}
+		for _, t := range m.possible("_Entity") {
+			gs := collect(m, frags, root.sels, t)
+			if len(gs) == 0 {
+				continue
+			}
+			types++
+			for _, g := range gs {
+				if m.requires[t+"."+g.name] != "" {
+					withRequires++
+					break
+				}
+			}
+		}
+	}
+	out["entity_types_selected"] = fmt.Sprint(types)
+	out["mixed_entity_types_with_requires"] = fmt.Sprint(types > 1 && withRequires > 0)
+	return out
 }
 
 func subsetOf(a, b map[string]bool) bool {
@@ -586,9 +630,6 @@ func (p c20) Run(c *fw.Ctx, idx int) fw.Result {
 	case "failed":
 		res.Count("operations_failed", 1)
 		res.Observe("error_answer_classes", errClass(b.errMsg))
-		if idx < 600 {
-			res.Observe("error_answer_examples", fmt.Sprintf("%s @case %d", trunc(errClass(b.errMsg), 60), idx))
-		}
 	}
 
 	viaEngine := !entity && idx%3 == 0
